@@ -36,8 +36,14 @@ def dict_variants(rng, name, limit):
     # smaller populations, always: bounds of other fields that depend on the population size (cross-field validators) start to refuse here, on both routes alike
     ps = base.get("population_size")
     if isinstance(ps, int):
-        for x in sorted({ps - 1, max(1, ps // 2), ps // 2 + 1, max(1, ps // 3)}):
-            out.append({"population_size": x})
+        for x in range(1, min(ps, 64)):       # every smaller size: the two routes must agree on each (configuration comparison only; not run)
+            out.append({"population_size": x, "__norun__": True})
+    # pairs: every validator-accepted moved value of an algorithm parameter × smaller populations (a tuner's cartesian grid over both): rows the configuration
+    # class refuses must be refused by set_config_parameters too (configuration comparison only; not run)
+    if isinstance(ps, int):
+        for k, v in optimizers.param_variants(name):
+            for x in range(1, min(ps, 64), max(1, min(ps, 64) // 24)):
+                out.append({k: v, "population_size": x, "__norun__": True})
     # and, for every algorithm parameter, one validator-accepted moved value that is always run (HyperTuner re-configures exactly so)
     seen = set()
     for k, v in optimizers.param_variants(name):
@@ -62,6 +68,7 @@ def run(ctx):
             job = {"name": name, "kind": "cont", "specs": [{"k": "contMulti", "lbs": [-3.0, -3.0, 0.0], "ubs": [3.0, 3.0, 6.0]}], "objective": "sphere", "minmax": "min",
                    "seed": rng.randrange(1, 10 ** 6), "mode": "serial", "cfg": dict(cfg), "variant": var}
             force_run = bool(var.pop("__run__", False)) if isinstance(var, dict) else False
+            no_run = bool(var.pop("__norun__", False)) if isinstance(var, dict) else False
             if "__drop__" in var:
                 job["drop"] = var["__drop__"]
             else:
@@ -75,6 +82,8 @@ def run(ctx):
                     job["do_run"] = False
             if force_run:
                 job["do_run"] = True
+            if no_run:
+                job["do_run"] = False
             js.append(job)
     res = pmap(run_one, js)
     for j, r in zip(js, res):
